@@ -28,7 +28,9 @@ theorem minv_stepRun {σ : St} (x inp : Nat) (M : MInv σ) (R : RegInv σ) : MIn
   · have hs' : (σ.th x).pc.hSrc = false := by simpa using hs
     by_cases hi : (σ.th x).pc = .isg
     · exact minv_run_isg x inp M hi
-    · exact minv_run_plain x inp M R hs' hi
+    · by_cases hi1 : (σ.th x).pc = .is1
+      · exact minv_run_is1 x inp M hi1
+      · exact minv_run_plain x inp M R hs' hi hi1
 
 /-- the label does not start one of the two futures handle conversions -/
 def Label.noConv : Label → Prop
